@@ -545,21 +545,24 @@ def mps_overlap(Bra, Ket):
     return complex(E[0, 0])
 
 
-def mps_overlap_log(Bra, Ket):
+def mps_overlap_log(Bra, Ket, extended=False):
     """<Bra|Ket> as (mantissa, binary exponent): value = mantissa * 2**exponent, the transfer matrix is renormalised by an exact power of
-    two after every site, so chains whose overlap leaves the floating-point range are handled."""
-    E = np.ones((1, 1), dtype=complex)
+    two after every site, so chains whose overlap leaves the floating-point range are handled. extended=True: the same contraction in numpy's long
+    double (64-bit mantissa on x86): the difference between the two evaluations estimates the rounding error of ANY double-precision transfer-matrix
+    evaluation of this overlap (the conditioning of the contraction, which can be poor on long chains)."""
+    ct = np.clongdouble if extended else complex
+    E = np.ones((1, 1), dtype=ct)
     ex = 0
     for B, K in zip(Bra, Ket):
-        T = np.einsum('bk,sbc->ksc', E, np.conj(np.asarray(B)))
-        E = np.einsum('ksc,skl->cl', T, np.asarray(K))
+        T = np.einsum('bk,sbc->ksc', E, np.conj(np.asarray(B)).astype(ct))
+        E = np.einsum('ksc,skl->cl', T, np.asarray(K).astype(ct))
         m = float(np.abs(E).max())
         if m == 0:
             return 0j, 0
         k = int(np.frexp(m)[1])
-        E = np.ldexp(E.real, -k) + 1j * np.ldexp(E.imag, -k)
+        E = (np.ldexp(E.real, -k) + 1j * np.ldexp(E.imag, -k)).astype(ct)
         ex += k
-    return complex(E[0, 0]), ex
+    return (E[0, 0] if extended else complex(E[0, 0])), ex
 
 
 def mpo_element(Bra, W, Ket):
